@@ -12,6 +12,7 @@ From Coq Require Import ZArith List Bool.
 Import ListNotations.
 Require Import WnV.Base.Sx WnV.Gen.LmfTables WnV.Model.Val WnV.Model.XmlText WnV.Model.Lmf.
 Require Import WnV.Proofs.XmlTextProofs WnV.Proofs.LmfProofs.
+Require Import WnV.Model.Scan WnV.Proofs.ScanProofs.
 Local Open Scope Z_scope.
 
 (* ---- the header: accepted exactly when line 1 is the XML declaration and line 2 a DOCTYPE of a supported version; every supported version has an accepted header; otherwise LMFError (or a decoding error) *)
@@ -134,4 +135,357 @@ Theorem C20_missing_id_ex :
                        []]]]) = true.
 Proof. exact (@missing_id_ex). Qed.
 Print Assumptions C20_missing_id_ex.
+
+(* ---- scan_lexicons (model: Model/Scan.v, hand-written scanners equivalent to the two regular expressions of wn.lmf.scan_lexicons, validated against the implementation on generated, mutated and hand-written edge cases) reports what dump wrote: for every file dump produces, the scan returns exactly the id, version, label and extension base of every lexicon, in order — whatever the other attribute values, texts and metadata contain *)
+Theorem C20_scan_dump :
+  forall (version : str) (resource : val) (text : str),
+         dump version resource = Ok text ->
+         exists (ver : list Z) (lexv : val) (lexicons : list val) (specs : list lexspec),
+           version_info version = Ok ver /\
+           py_item resource (str_of_string "lexicons") = Ok lexv /\
+           py_iter lexv = Ok lexicons /\
+           Forall2 (spec_of ver) lexicons specs /\
+           (Forall ls_encodable specs -> scan_lexicons (utf8_encode text) = Ok (map ls_info specs)).
+Proof. exact (@scan_dump). Qed.
+Print Assumptions C20_scan_dump.
+
+Theorem C20_scan_dump_single :
+  forall (version : str) (resource : val) (text : str),
+         dump version resource = Ok text ->
+         forall (lexicon : val) (ver : list Z) (lexv : val),
+         version_info version = Ok ver ->
+         py_item resource (str_of_string "lexicons") = Ok lexv ->
+         py_iter lexv = Ok [lexicon] ->
+         exists l : lexspec,
+           spec_of ver lexicon l /\
+           (ls_encodable l -> scan_lexicons (utf8_encode text) = Ok [ls_info l]).
+Proof. exact (@scan_dump_single). Qed.
+Print Assumptions C20_scan_dump_single.
+
+Theorem C20_scan_document :
+  forall (pre : str) (specs : list lexspec) (post : str),
+         lt_freew pre = true ->
+         Forall ls_wf specs ->
+         Forall ls_encodable specs ->
+         lt_freew post = true ->
+         scan_lexicons (utf8_encode (pre ++ concat (map ls_text specs) ++ post)) =
+         Ok (map ls_info specs).
+Proof. exact (@scan_document). Qed.
+Print Assumptions C20_scan_document.
+
+Theorem C20_dump_inv :
+  forall (version : str) (resource : val) (text : str),
+         dump version resource = Ok text ->
+         exists
+           (schema dc_uri : str) (ver : list Z) (lexv : val) (lexicons : list val)
+         (specs : list lexspec),
+           assoc version schemas = Some schema /\
+           assoc version dc_uris = Some dc_uri /\
+           In version supported_versions /\
+           version_info version = Ok ver /\
+           py_item resource (str_of_string "lexicons") = Ok lexv /\
+           py_iter lexv = Ok lexicons /\
+           Forall ls_wf specs /\
+           Forall2 (spec_of ver) lexicons specs /\
+           text = dump_header schema dc_uri ++ concat (map ls_text specs) ++ dump_footer.
+Proof. exact (@dump_inv). Qed.
+Print Assumptions C20_dump_inv.
+
+(* ---- the attribute scanner tokenises a start tag into exactly the written (name, value) pairs and unescaping inverts both escapers, so text inside another attribute value can no longer be mistaken for id/version/label (the defect F21 these proofs uncovered; the old failing inputs are kept as positive examples) *)
+Theorem C20_attr_tokens_rem_text :
+  forall (l : list rattr) (trailer : list Z),
+         forallb rattr_wf l = true ->
+         forallb dead trailer = true -> attr_tokens (rem_text l trailer) = map rattr_token l.
+Proof. exact (@attr_tokens_rem_text). Qed.
+Print Assumptions C20_attr_tokens_rem_text.
+
+Theorem C20_start_tag_scanned :
+  forall (t : lextype) (attrib : list (str * str)) (rest : list Z),
+         attrib <> [] ->
+         forallb (fun kv : str * str => attr_name_ok (fst kv)) attrib = true ->
+         let R := utf8_encode (start_tag_rem (lextype_name t) attrib) in
+         lex_at
+           (utf8_encode (lextype_name t ++ start_tag_rem (lextype_name t) attrib) ++ c_gt :: rest) =
+         Some (t, R, rest) /\ attr_tokens R = map q_token attrib.
+Proof. exact (@start_tag_scanned). Qed.
+Print Assumptions C20_start_tag_scanned.
+
+Theorem C20_lexicon_start_tag_scanned :
+  forall (t : lextype) (id label language email license version : str)
+           (extra : list (str * str)) (rest : list Z),
+         Forall (fun kv : str * str => In (fst kv) extra_names) extra ->
+         scalars id = true ->
+         scalars label = true ->
+         scalars version = true ->
+         let attrib := lexicon_attrib id label language email license version extra in
+         let R := utf8_encode (start_tag_rem (lextype_name t) attrib) in
+         lex_at
+           (utf8_encode (lextype_name t ++ start_tag_rem (lextype_name t) attrib) ++ c_gt :: rest) =
+         Some (t, R, rest) /\
+         attr_tokens R = map q_token attrib /\
+         tag_info R =
+         Ok {| i_id := id; i_version := version; i_label := Some label; i_extends := None |}.
+Proof. exact (@lexicon_start_tag_scanned). Qed.
+Print Assumptions C20_lexicon_start_tag_scanned.
+
+Theorem C20_dump_lexicon_start_tag :
+  forall (lexicon : val) (version : list Z) (text : str),
+         _dump_lexicon lexicon version = Ok text ->
+         exists (l : lexspec) (rest : list Z),
+           spec_of version lexicon l /\
+           text =
+           str_of_string "  <" ++
+           (lextype_name (ls_type l) ++ start_tag_rem (lextype_name (ls_type l)) (ls_attrib l)) ++
+           [c_gt] ++ rest /\
+           (scalars (ls_id l) = true ->
+            scalars (ls_label l) = true ->
+            scalars (ls_version l) = true ->
+            forall rest' : str,
+            let R := utf8_encode (start_tag_rem (lextype_name (ls_type l)) (ls_attrib l)) in
+            lex_at
+              (utf8_encode
+                 (lextype_name (ls_type l) ++ start_tag_rem (lextype_name (ls_type l)) (ls_attrib l)) ++
+               c_gt :: rest') = Some (ls_type l, R, rest') /\
+            attr_tokens R = map q_token (ls_attrib l) /\
+            tag_info R =
+            Ok
+              {|
+                i_id := ls_id l;
+                i_version := ls_version l;
+                i_label := Some (ls_label l);
+                i_extends := None
+              |}).
+Proof. exact (@dump_lexicon_start_tag). Qed.
+Print Assumptions C20_dump_lexicon_start_tag.
+
+Theorem C20_unescape_quoteattr :
+  forall s : str, unescape_attribute (quoteattr_inner s) = Some s.
+Proof. exact (@unescape_quoteattr). Qed.
+Print Assumptions C20_unescape_quoteattr.
+
+Theorem C20_unescape_escape_attrib :
+  forall s : str, unescape_attribute (escape_attrib s) = Some s.
+Proof. exact (@unescape_escape_attrib). Qed.
+Print Assumptions C20_unescape_escape_attrib.
+
+Theorem C20_utf8_roundtrip :
+  forall s : str, scalars s = true -> utf8_decode (utf8_encode s) = Some s.
+Proof. exact (@utf8_roundtrip). Qed.
+Print Assumptions C20_utf8_roundtrip.
+
+Theorem C20_start_tag_old_witness :
+  let attrib :=
+           lexicon_attrib (str_of_string "a") (str_of_string "x") (str_of_string "en")
+             (str_of_string "e") (str_of_string "l") (str_of_string "1")
+             [(str_of_string "url", str_of_string "see version=""2"" there")] in
+         tag_info (utf8_encode (start_tag_rem (str_of_string "Lexicon") attrib)) =
+         Ok
+           {|
+             i_id := str_of_string "a";
+             i_version := str_of_string "1";
+             i_label := Some (str_of_string "x");
+             i_extends := None
+           |} /\
+         attr_tokens (utf8_encode (start_tag_rem (str_of_string "Lexicon") attrib)) =
+         [(str_of_string "id", str_of_string "a"); (str_of_string "label", str_of_string "x");
+          (str_of_string "language", str_of_string "en"); (str_of_string "email", str_of_string "e");
+          (str_of_string "license", str_of_string "l"); (str_of_string "version", str_of_string "1");
+          (str_of_string "url", str_of_string "see version=""2"" there")].
+Proof. exact (@start_tag_old_witness). Qed.
+Print Assumptions C20_start_tag_old_witness.
+
+Theorem C20_extends_old_witness :
+  tag_info
+           (item_rem
+              (extends_item (str_of_string "b") (str_of_string "2")
+                 [(str_of_string "url", str_of_string "id='evil'")])) =
+         Ok
+           {|
+             i_id := str_of_string "b";
+             i_version := str_of_string "2";
+             i_label := None;
+             i_extends := None
+           |}.
+Proof. exact (@extends_old_witness). Qed.
+Print Assumptions C20_extends_old_witness.
+
+Theorem C20_scan_dump_old_witness :
+  match
+           dump (str_of_string "1.1")
+             (VDict
+                [(str_of_string "lexicons", VList [ex_lexicon "base" "Base" "version=""evil""" VNone])])
+         with
+         | Ok text => scan_lexicons (utf8_encode text)
+         | Err e => Err e
+         end =
+         Ok
+           [{|
+              i_id := str_of_string "base";
+              i_version := str_of_string "1.0";
+              i_label := Some (str_of_string "Base");
+              i_extends := None
+            |}].
+Proof. exact (@scan_dump_old_witness). Qed.
+Print Assumptions C20_scan_dump_old_witness.
+
+Theorem C20_name_boundary_example :
+  attr_matches
+           (str_of_string
+              " id=""a"" xml:id=""b"" xid=""c"" my-version=""2"" dc:identifier=""d"" version='1'") =
+         [(NId, str_of_string "a"); (NVersion, str_of_string "1")].
+Proof. exact (@name_boundary_example). Qed.
+Print Assumptions C20_name_boundary_example.
+
+(* ---- comments and CDATA sections contribute nothing (F21b); dump never writes any; the side condition of the skipping lemma is needed (witnesses) *)
+Theorem C20_comment_skipped :
+  forall (pre c : str) (post : list Z),
+         lex_closed pre ->
+         substrb (str_of_string "-->") c = false ->
+         lex_matches (pre ++ str_of_string "<!--" ++ c ++ str_of_string "-->" ++ post) =
+         lex_matches (pre ++ post) /\
+         scan_lexicons (pre ++ str_of_string "<!--" ++ c ++ str_of_string "-->" ++ post) =
+         scan_lexicons (pre ++ post).
+Proof. exact (@comment_skipped). Qed.
+Print Assumptions C20_comment_skipped.
+
+Theorem C20_cdata_skipped :
+  forall (pre c : str) (post : list Z),
+         lex_closed pre ->
+         substrb (str_of_string "]]>") c = false ->
+         lex_matches (pre ++ str_of_string "<![CDATA[" ++ c ++ str_of_string "]]>" ++ post) =
+         lex_matches (pre ++ post) /\
+         scan_lexicons (pre ++ str_of_string "<![CDATA[" ++ c ++ str_of_string "]]>" ++ post) =
+         scan_lexicons (pre ++ post).
+Proof. exact (@cdata_skipped). Qed.
+Print Assumptions C20_cdata_skipped.
+
+Theorem C20_scan_document_with_comment :
+  forall (pre : str) (specs1 : list lexspec) (c : str) (specs2 : list lexspec) (post : str),
+         lt_freew pre = true ->
+         Forall ls_wf specs1 ->
+         Forall ls_encodable specs1 ->
+         Forall ls_wf specs2 ->
+         Forall ls_encodable specs2 ->
+         lt_freew post = true ->
+         substrb (str_of_string "-->") c = false ->
+         scan_lexicons
+           (utf8_encode (pre ++ concat (map ls_text specs1)) ++
+            str_of_string "<!--" ++
+            c ++ str_of_string "-->" ++ utf8_encode (concat (map ls_text specs2) ++ post)) =
+         Ok (map ls_info (specs1 ++ specs2)).
+Proof. exact (@scan_document_with_comment). Qed.
+Print Assumptions C20_scan_document_with_comment.
+
+Theorem C20_dump_no_sections :
+  forall (version : str) (resource : val) (text : str),
+         dump version resource = Ok text ->
+         (exists (schema : str) (d rest : list Z),
+            text = xmldecl ++ [c_nl] ++ (c_lt :: 33 :: d) ++ [c_nl] ++ rest /\
+            doctype_of schema = c_lt :: 33 :: d /\
+            zin c_lt d = false /\ bang_free (xmldecl ++ [c_nl]) = true /\ bang_free rest = true) /\
+         section_free text = true.
+Proof. exact (@dump_no_sections). Qed.
+Print Assumptions C20_dump_no_sections.
+
+Theorem C20_dump_never_skips :
+  forall (version : str) (resource : val) (text : str),
+         dump version resource = Ok text ->
+         forall a b : list Z, text = a ++ c_lt :: b -> skip_at b = None.
+Proof. exact (@dump_never_skips). Qed.
+Print Assumptions C20_dump_never_skips.
+
+Theorem C20_comment_not_skipped_witness :
+  let pre := str_of_string "<Lexicon id=""a"" version=""1"" note=""" in
+         let c := str_of_string """><Lexicon id=""c"" version=""3"" note=""" in
+         let post := str_of_string """>" in
+         substrb (str_of_string "-->") c = false /\
+         scan_lexicons (pre ++ str_of_string "<!--" ++ c ++ str_of_string "-->" ++ post) =
+         Ok
+           [{|
+              i_id := str_of_string "a";
+              i_version := str_of_string "1";
+              i_label := None;
+              i_extends := None
+            |};
+            {|
+              i_id := str_of_string "c";
+              i_version := str_of_string "3";
+              i_label := None;
+              i_extends := None
+            |}] /\
+         scan_lexicons (pre ++ post) =
+         Ok
+           [{|
+              i_id := str_of_string "a";
+              i_version := str_of_string "1";
+              i_label := None;
+              i_extends := None
+            |}].
+Proof. exact (@comment_not_skipped_witness). Qed.
+Print Assumptions C20_comment_not_skipped_witness.
+
+Theorem C20_comment_not_skipped_witness2 :
+  let pre := str_of_string "<!-- " in
+         let post := str_of_string "<Lexicon id=""a"" version=""1""> -->" in
+         scan_lexicons
+           (pre ++ str_of_string "<!--" ++ str_of_string " x " ++ str_of_string "-->" ++ post) =
+         Ok
+           [{|
+              i_id := str_of_string "a";
+              i_version := str_of_string "1";
+              i_label := None;
+              i_extends := None
+            |}] /\ scan_lexicons (pre ++ post) = Ok [].
+Proof. exact (@comment_not_skipped_witness2). Qed.
+Print Assumptions C20_comment_not_skipped_witness2.
+
+(* ---- negative: a Lexicon/LexiconExtension/Extends start tag without id or version never yields a list (KeyError; the LMFError branch of the source is unreachable), an Extends before any lexicon is an LMFError *)
+Theorem C20_scan_missing_id_or_version :
+  forall (data : str) (t : lextype) (R : str),
+         In (t, R) (lex_matches data) ->
+         lacks_id_or_version (attr_matches R) -> exists e : err, scan_lexicons data = Err e.
+Proof. exact (@scan_missing_id_or_version). Qed.
+Print Assumptions C20_scan_missing_id_or_version.
+
+Theorem C20_scan_first_missing_keyerror :
+  forall (data : str) (t : lextype) (R : str) (ms : list (lextype * str)),
+         lex_matches data = (t, R) :: ms ->
+         lacks_id_or_version (attr_matches R) ->
+         Forall (fun m : attrname * str => attr_value (snd m) <> None) (attr_matches R) ->
+         scan_lexicons data = Err EKey.
+Proof. exact (@scan_first_missing_keyerror). Qed.
+Print Assumptions C20_scan_first_missing_keyerror.
+
+Theorem C20_tag_info_never_lmferror :
+  forall R : str, tag_info R <> Err ELmf.
+Proof. exact (@tag_info_never_lmferror). Qed.
+Print Assumptions C20_tag_info_never_lmferror.
+
+Theorem C20_scan_extends_first :
+  forall (data R : str) (ms : list (lextype * str)) (i : info),
+         lex_matches data = (TExtends, R) :: ms -> tag_info R = Ok i -> scan_lexicons data = Err ELmf.
+Proof. exact (@scan_extends_first). Qed.
+Print Assumptions C20_scan_extends_first.
+
+(* ---- non-vacuity of scan_dump: a lexicon whose label contains quotes, > and a literal <Lexicon ...> *)
+Theorem C20_scan_dump_example :
+  match dump (str_of_string "1.1") ex_resource with
+         | Ok text => scan_lexicons (utf8_encode text)
+         | Err e => Err e
+         end =
+         Ok
+           [{|
+              i_id := str_of_string "base";
+              i_version := str_of_string "1.0";
+              i_label := Some (str_of_string "it's ""quoted"" > <Lexicon id='x' version='9'>");
+              i_extends := None
+            |};
+            {|
+              i_id := str_of_string "ext";
+              i_version := str_of_string "1.0";
+              i_label := Some (str_of_string "Extension");
+              i_extends := Some (str_of_string "base", str_of_string "1.0")
+            |}].
+Proof. exact (@scan_dump_example). Qed.
+Print Assumptions C20_scan_dump_example.
 
